@@ -358,7 +358,11 @@ func (g *gen) style() string {
 		parts = append(parts, "display:"+rng.Pick(r, displays...))
 	}
 	if r.P(1, 5) {
-		parts = append(parts, "float:"+rng.Pick(r, "left", "right", "none"))
+		fs := []string{"left", "right", "none", "left"}
+		if g.wide {
+			fs = append(fs, "footnote")
+		}
+		parts = append(parts, "float:"+rng.Pick(r, fs...))
 	}
 	if r.P(1, 5) {
 		ps := []string{"relative", "absolute", "fixed", "static", "absolute"}
